@@ -71,6 +71,19 @@ def scalars(bits, rng, n_random):
         s.add(d + d * XA + d * XA ** 2 + (rng.randrange(XA)) * XA ** 3)
         s.add(d * XA ** 3 + d * XA ** 2)
         s.add(R + d + d * XA + d * XA ** 2)
+    if bits >= 256:
+        # exponents written down digit by digit in base |x| (the decomposition's own basis) with digits that are structured in their
+        # 32-bit halves: zero low half, zero high half, 2^32, 2^32-1, zero digits in any position
+        def dig():
+            h = rng.getrandbits(32)
+            return rng.choice([0, 0, (h % 0xd2010000) << 32, h, 1 << 32, (1 << 32) - 1, XA - 1, rng.randrange(XA), 0xd2010000 << 32])
+        for _ in range(40):
+            k = sum(dig() * XA ** i for i in range(4))
+            if k >= R:
+                k %= R
+            s.add(k)
+            if k + R < top and rng.random() < 0.3:
+                s.add(k + R)
     out = sorted(v % top for v in s if v >= 0)
     for _ in range(n_random):
         out.append(rng.getrandbits(bits))
@@ -354,7 +367,7 @@ def worker(sh):
 
 def run(ctx):
     O.selftest(random.Random(ctx.seed))
-    cfgs = ['prod', 'san', 'p32'] if ctx.quick else ['prod', 'san', 'p64', 'p32', 'x86base']
+    cfgs = ['prod', 'san', 'p32'] if ctx.quick else ['prod', 'san', 'p64', 'p32', 'x86base', 'p64-O0', 'gcc-p64']
     specs = {c: (c if c != 'x86base' else 'prod', 'opdrv.cpp', ['--x86base'] if c == 'x86base' else []) for c in cfgs}
     exes = session.build_exes(specs)
     session.run_shards(ctx, worker, 16, exes, {'cfgs': cfgs})
